@@ -8,6 +8,7 @@ import (
 type pendingMsg struct {
 	msgChan   chan Message
 	timestamp time.Time
+	waiting   bool // waiting is set while a receiver is blocked on msgChan
 }
 
 type pendingItem struct {
